@@ -41,6 +41,12 @@ StateOf(st, s) ==
            pool |-> st.pool, cp |-> st.api.cp, summary |-> st.api.summary, dirty |-> st.dirty,
            dpool |-> dpart.dpool, dsum |-> dpart.dsum, ustreams |-> dpart.ustreams,
            sess |-> "open", ptype |-> dpart.ptype]
+     ELSE IF DOMAIN s.schemas = {}      \* a run that starts on a closed package: memory = what the bytes hold
+     THEN LET sc == DecodeSchemas(cells, img.pool) IN
+          [schemas |-> sc, tstream |-> [t \in DOMAIN sc |-> IF t \in DOMAIN cells THEN cells[t] ELSE <<>>],
+           pool |-> img.pool, cp |-> img.cp, summary |-> img.sum, dirty |-> Off,
+           dpool |-> dpart.dpool, dsum |-> dpart.dsum, ustreams |-> dpart.ustreams,
+           sess |-> "closed", ptype |-> dpart.ptype]
      ELSE [schemas |-> s.schemas,
            tstream |-> [t \in DOMAIN s.schemas |-> IF t \in DOMAIN cells THEN cells[t] ELSE <<>>],
            pool |-> s.pool, cp |-> s.cp, summary |-> s.summary, dirty |-> Off,
@@ -117,7 +123,7 @@ TraceInit ==
 TraceNext ==
   /\ l <= Len(Rec) /\ l' = l + 1
   /\ LET e == Rec[l]
-         s1 == StateOf(e.st, Cur)
+         s1 == StateOf(e.st, IF e.op \in {"Reset", "Create"} THEN [schemas |-> << >>] ELSE Cur)
      IN /\ Bind(s1)
         /\ hist' = [path |-> <<>>, last |-> [op |-> e.op, args |-> e.args, res |-> e.res]]
         /\ Judge(e, Cur, s1, FALSE)
